@@ -245,7 +245,9 @@ def run(tier, seed):
                [4, 9, 16, 0, 0, -1], [4, 4, 9, 0, 0, -2], [6, 6, 6, 1, 1, 1], [1, 25, 4, 0, 0, 0],
                # strongly oblique, Gram determinant 0.028 .. 0.04: at the edge of the quantifier (>= 0.02), where an over-cautious "nearly
                # coplanar" test would refuse a valid cell
-               [50, 50, 7, 0, 0, -49], [50, 50, 7, 0, 0, 49], [10, 10, 10, 9, 9, 9], [7, 50, 50, 49, 0, 0]]
+               [50, 50, 7, 0, 0, -49], [50, 50, 7, 0, 0, 49], [10, 10, 10, 9, 9, 9], [7, 50, 50, 49, 0, 0],
+               # needle- and plate-shaped cells: one axis 2000 times the others (a pseudo-inverse with a relative cut-off drops the short ones)
+               [1, 1, 4000000, 0, 0, 0], [4000000, 1, 1, 0, 0, 0]]
     rots = list(AXIS) + [draw_rotation(rng, 3 if tier == "quick" else 6) for _ in range(nr)]
     pairs = []
     for i, (p, q) in enumerate(rots):
